@@ -256,21 +256,16 @@ func (l *linkServiceBase) dispatchData(pkt *defn.Pkt) {
 		return
 	}
 
-	// Only if from a local face (and therefore from a producer), dispatch to
-	// threads matching every prefix. We need to do this because producers do
-	// not attach PIT tokens to their data packets.
-	if l.Scope() == defn.Local {
-		for i, match := range fw.HashNameToAllPrefixFwThreads(pkt.Name) {
-			if match {
-				core.LogTrace(l, "Prefix dispatched local-origin Data packet to thread ", i)
-				dispatch.GetFWThread(i).QueueData(pkt)
-			}
+	// Data that does not carry one of our PIT tokens is matched to the pending
+	// Interests by name. An Interest with CanBePrefix is pending in the thread that
+	// its own (shorter) name hashes to, so dispatch to the threads matching every
+	// prefix. This holds for producers on local faces, which do not attach PIT
+	// tokens to their Data packets, as well as for peers on non-local faces that
+	// do not echo our tokens.
+	for i, match := range fw.HashNameToAllPrefixFwThreads(pkt.Name) {
+		if match {
+			core.LogTrace(l, "Prefix dispatched Data packet without PIT token to thread ", i)
+			dispatch.GetFWThread(i).QueueData(pkt)
 		}
-		return
 	}
-
-	// Only exact-match for now (no CanBePrefix)
-	thread := fw.HashNameToFwThread(pkt.Name)
-	core.LogTrace(l, "Dispatched Data to thread ", thread)
-	dispatch.GetFWThread(thread).QueueData(pkt)
 }
